@@ -107,8 +107,12 @@ def run_job(job, rec):
             im = s * s * rng.uniform(0.5, 2, size=d)
             M = np.diag(1.0 / im)
         else:
-            B = rng.normal(size=(d, d))
-            im = s * s * (B @ B.T / d + np.eye(d))
+            if rng.random() < 0.5 or d == 1:
+                B = rng.normal(size=(d, d))
+                im = s * s * (B @ B.T / d + np.eye(d))
+            else:  # strongly non-diagonal
+                sg = rng.choice([-1.0, 1.0], size=d)
+                im = s * s * (0.2 * np.eye(d) + 0.8 * np.ones((d, d))) * sg[:, None] * sg[None, :] * rng.uniform(0.5, 2)
             im = 0.5 * (im + im.T)
             M = np.linalg.inv(im)
         invM = np.linalg.inv(M)
